@@ -283,6 +283,20 @@ def tlsCmd : List String → String
     if Tls.presented (Tls.reload r.1 r.2 2) == 2 then "new" else "old"
   | _ => "bad-op"
 
+def poolCmd : List String → String
+  | ["allowed", o] =>
+    let oc := match o with
+      | "exec" => some Pool.Outcome.executedOnce
+      | "told" => some .toldNotExecuted
+      | "blocked" => some .blockedForever
+      | "nil" => some .nilResult
+      | "twice" => some .executedTwice
+      | _ => none
+    match oc with
+    | some oc => b01 (Pool.outcomeAllowed Gen.poolStopDrains Gen.poolResizeSendsNil oc)
+    | none => "bad-op"
+  | _ => "bad-op"
+
 def rlCmd (st : St) : List String → St × String
   | ["bucket", name, n, d, burst, now] =>
     match n.toNat?, d.toNat?, burst.toNat?, now.toNat? with
@@ -426,6 +440,7 @@ def step (st : St) (line : String) : St × String :=
   | "cfg" :: args => cfgCmd st args
   | "startup" :: args => (st, startupCmd args)
   | "tls" :: args => (st, tlsCmd args)
+  | "pool" :: args => (st, poolCmd args)
   | ["reset"] => ({}, "ok")
   | _ => (st, "bad-op")
 
